@@ -873,9 +873,33 @@ def c11(W, replay=None):
     return sys_pipeline("C11", W, scen, None, ASSUME_SYS + ["histories are sequential (the property quantifies over histories, not schedules)"], replay=replay)
 
 
+def c13_histories(W):
+    """Logins that follow an abandoned one: the browser still holds the cookie of a pending (or finished, or logged-out) session when
+    it asks for another URL; the login that completes returns to the URL of ITS first request."""
+    res = []
+    for st in ("memory", "redis"):
+        for prior in ("pending", "authenticated", "loggedOut", "pendingTwice"):
+            steps = []
+            if prior in ("pending", "pendingTwice"):
+                steps += [app("b1", "f1", cookie="none", url=2)]
+            if prior == "pendingTwice":
+                steps += [app("b1", "f1", cookie="jar", url=4)]
+            if prior in ("authenticated", "loggedOut"):
+                steps += [browse("b1", "f1", 2)]
+            if prior == "loggedOut":
+                steps += [{"op": "check", "b": "b1", "f": "f1", "kind": "logout", "cookie": "jar"}]
+            if prior == "authenticated":
+                steps += [{"op": "tick", "d": 61}]
+            # the browser (still holding whatever cookie it has) now asks for another URL and follows the redirects
+            steps += [dict(browse("b1", "f1", 5, ans=dict(ANS, rt=False))), app("b1", "f1", url=5)]
+            res.append({"id": "c13/history/%s/%s" % (prior, st), "cfg": {"filters": [dict(F1, store=st)]}, "steps": steps, "tags": ["urlHistories"]})
+    return res
+
+
 def c13(W, replay=None):
     W.build()
-    scen = [] if replay else family(W, "C13") + discovery_family(W) + parallel_family(W, 200 if W.tier == "thorough" else 20)
+    # (the C05 family brings the histories: a login abandoned half-way, a stale or foreign cookie, then a login that completes)
+    scen = [] if replay else family(W, "C13") + discovery_family(W) + parallel_family(W, 200 if W.tier == "thorough" else 20) + c13_histories(W) + family(W, "C05", "quick")
     return sys_pipeline("C13", W, scen, None, ASSUME_SYS + ["Location values are parsed with net/url, independently of how the service assembled them"], replay=replay)
 
 
